@@ -81,6 +81,9 @@ def second_size(fn, first):
         fn(s)
     except _NeedSize as e:
         return e.n
+    except Exception:
+        # the draw ended without a second request (or failed): the enumeration of first chunks reports it
+        return None
     return None
 
 
